@@ -16,10 +16,19 @@ Definition fold_eq (a b : bytes) : bool := forallb2 (fun x y => lower x =? lower
 Definition has_prefix_fold (s p : bytes) : bool := (length p <=? length s)%nat && fold_eq (firstn (length p) s) p.
 Definition has_suffix_fold (s p : bytes) : bool := (length p <=? length s)%nat && fold_eq (skipn (length s - length p) s) p.
 
-(* every theorem is for EVERY byte string (wfb: all elements are bytes), of every length *)
+(* every theorem is for EVERY byte string (wfb: all elements are bytes), of every length a Go string
+   can have (len s < 2^63). The bound is necessary for the statements that involve the word-sized
+   length the code keeps (uintptr(len(s)), len(s)-len(suffix)): the *_unbounded variants below are
+   refuted in Ascii/Proofs.v by lists of 2^63 / 2^64 elements, which no Go program can build. *)
 Definition valid_statement : Prop :=
-  forall s, wfb s = true -> ascii_ValidString s = forallb is_ascii s /\ ascii_Valid s = forallb is_ascii s.
+  forall s, wfb s = true -> len s < 2 ^ 63 ->
+    ascii_ValidString s = forallb is_ascii s /\ ascii_Valid s = forallb is_ascii s.
 Definition valid_print_statement : Prop :=
+  forall s, wfb s = true -> len s < 2 ^ 63 ->
+    ascii_ValidPrintString s = forallb is_print s /\ ascii_ValidPrint s = forallb is_print s.
+Definition valid_statement_unbounded : Prop :=
+  forall s, wfb s = true -> ascii_ValidString s = forallb is_ascii s /\ ascii_Valid s = forallb is_ascii s.
+Definition valid_print_statement_unbounded : Prop :=
   forall s, wfb s = true -> ascii_ValidPrintString s = forallb is_print s /\ ascii_ValidPrint s = forallb is_print s.
 (* stronger than the property (which speaks of ASCII inputs): holds for all bytes, the table maps non-ASCII bytes to themselves *)
 Definition equal_fold_statement : Prop :=
@@ -29,6 +38,9 @@ Definition has_prefix_fold_statement : Prop :=
   forall s p, wfb s = true -> wfb p = true ->
     ascii_HasPrefixFoldString s p = has_prefix_fold s p /\ ascii_HasPrefixFold s p = has_prefix_fold s p.
 Definition has_suffix_fold_statement : Prop :=
+  forall s p, wfb s = true -> wfb p = true -> len s < 2 ^ 63 ->
+    ascii_HasSuffixFoldString s p = has_suffix_fold s p /\ ascii_HasSuffixFold s p = has_suffix_fold s p.
+Definition has_suffix_fold_statement_unbounded : Prop :=
   forall s p, wfb s = true -> wfb p = true ->
     ascii_HasSuffixFoldString s p = has_suffix_fold s p /\ ascii_HasSuffixFold s p = has_suffix_fold s p.
 Definition byte_rune_statement : Prop :=
@@ -36,7 +48,7 @@ Definition byte_rune_statement : Prop :=
             ascii_ValidPrintByte b = is_print b /\ ascii_ValidPrintRune b = is_print b.
 (* the translated loops never run out of the fuel the wrappers give them *)
 Definition fuel_enough_statement : Prop :=
-  forall s p, wfb s = true -> wfb p = true ->
+  forall s p, wfb s = true -> wfb p = true -> len s < 2 ^ 63 ->
     asm_ValidString (S (length s)) s <> None /\ asm_ValidPrintString (S (length s)) s <> None /\
     asm_EqualFoldString (S (length s)) s p <> None.
 (* the lower-case table of the implementation is the function [lower] *)
